@@ -23,15 +23,29 @@ def members(l, f):
     return "".join("<member>%s</member>" % escape(f(m)) for m in l)
 
 
+# field `extra` of an abstract rule: ONE further attribute that deviates from the default rule
+# ("x": an element the tool does not know; the others: elements it compares one by one)
+RULE_DEFAULT = {"from": "z1", "to": "z2", "application": "any", "rule-type": "interzone", "log-start": "", "log-end": "",
+                "log-setting": "", "tag": ""}
+EXTRA = {"x": ("tag", "x"), "z3": ("to", "z3"), "f3": ("from", "z3"), "le": ("log-end", "yes"), "ls": ("log-start", "yes"),
+         "lset": ("log-setting", "fwd"), "rt": ("rule-type", "universal"), "app": ("application", "web-browsing")}
+
+
 def rule_xml(r):
-    extra = "<tag><member>%s</member></tag>" % r["extra"] if r["extra"] else ""
+    at = dict(RULE_DEFAULT)
+    if r["extra"]:
+        k, v = EXTRA[r["extra"]]
+        at[k] = v
+    tail = "".join("<%s>%s</%s>" % (k, at[k], k) for k in ("log-start", "log-end", "log-setting") if at[k])
+    if at["tag"]:
+        tail += "<tag><member>%s</member></tag>" % at["tag"]
     if r.get("append"):
-        extra += "<APPEND/>"
-    return ('<entry name="%s"><action>%s</action><from><member>z1</member></from><to><member>z2</member></to>'
+        tail += "<APPEND/>"
+    return ('<entry name="%s"><action>%s</action><from><member>%s</member></from><to><member>%s</member></to>'
             "<source>%s</source><destination>%s</destination><service>%s</service>"
-            "<application><member>any</member></application><rule-type>interzone</rule-type>%s</entry>" % (
-                r["name"], r["action"], members(sorted(r["src"]), aname), members(sorted(r["dst"]), aname),
-                members(sorted(r["svc"]), sname), extra))
+            "<application><member>%s</member></application><rule-type>%s</rule-type>%s</entry>" % (
+                r["name"], r["action"], at["from"], at["to"], members(sorted(r["src"]), aname),
+                members(sorted(r["dst"]), aname), members(sorted(r["svc"]), sname), at["application"], at["rule-type"], tail))
 
 
 def merge_files(case):
@@ -43,7 +57,7 @@ def merge_files(case):
                 c[k] = {}
     v6 = render(pa["c6"], False) if pa["v6"] else None
     raw = None
-    if pa["pre"] or pa["app"]:
+    if pa["pre"] or pa["app"] or pa["craw"].get("v2", {}).get("rules"):
         c = copy.deepcopy(pa["craw"])
         napp = {r["name"] for r in pa["app"]}
         for r in c["rules"]:
@@ -131,10 +145,20 @@ def parse_rule_elem(name, elem):
         e = root.find(tag)
         return sorted(f(m.text or "") for m in e.findall("member")) if e is not None else []
 
-    extra = root.find("tag")
+    def one(tag):
+        e = root.find(tag)
+        if e is None:
+            return RULE_DEFAULT[tag] if tag == "tag" else ""
+        ms = e.findall("member")
+        return (ms[0].text or "") if ms else (e.text or "")
+
+    at = {k: one(k) for k in RULE_DEFAULT}
+    dev = [k for k in RULE_DEFAULT if at[k] != RULE_DEFAULT[k]]
+    extra = [x for x, (k, v) in EXTRA.items() if dev == [k] and at[k] == v]
+    if dev and not extra:
+        raise Broken("cmdparse: PAN-OS rule attributes outside the modelled values: %r" % {k: at[k] for k in dev})
     return {"name": name, "action": root.findtext("action") or "", "src": lst("source", ab_addr),
-            "dst": lst("destination", ab_addr), "svc": lst("service", ab_svc),
-            "extra": (extra.findtext("member") or "") if extra is not None else ""}
+            "dst": lst("destination", ab_addr), "svc": lst("service", ab_svc), "extra": extra[0] if extra else ""}
 
 
 def svc_val(elem):
